@@ -21,6 +21,7 @@ class Farm:
         self.workers = workers or WORKERS
         self.repo_src = repo_src
         self.zygote_boots = 0
+        self.stop = False
         self.boot_infos = []
         self.lock = threading.Lock()
 
@@ -49,7 +50,7 @@ class Farm:
                         seed, idxs = q.get_nowait()
                     except queue.Empty:
                         break
-                    if deadline is not None and time.monotonic() > deadline:
+                    if self.stop or (deadline is not None and time.monotonic() > deadline):
                         continue
                     if z is None or z.hashseed != seed:
                         if z is not None:
@@ -60,7 +61,7 @@ class Farm:
                             self.zygote_boots += 1
                             self.boot_infos.append(info)
                     for i in idxs:
-                        if deadline is not None and time.monotonic() > deadline:
+                        if self.stop or (deadline is not None and time.monotonic() > deadline):
                             break
                         r = z.run(specs[i])
                         results[i] = r
